@@ -5,10 +5,10 @@ every sat/unsat verdict with the one z3 4.8.12 gave during the run.
 
 The engine writes one transcript per worker (GOSYM_SOLVERLOG); the transcript is
 replayed verbatim (push/pop, definitions, assertions, check-sat) through the
-other solvers.  Result: /verif/evidence/solverdiff.json."""
+other solvers.  Result: /verif/solverdiff.json."""
 import json, os, subprocess, sys, tempfile, glob, shutil, time
 root = os.path.dirname(os.path.dirname(os.path.abspath(__file__)))
-out_path = os.path.join(root, 'evidence', 'solverdiff.json')
+out_path = os.path.join(root, 'solverdiff.json')
 res = json.load(open(out_path)) if os.path.exists(out_path) else {}
 MAXQ = int(os.environ.get('SOLVERDIFF_MAXQ', '4000'))
 def replay(cmd, text, pre=''):
